@@ -11,14 +11,20 @@ def case_desc(case):
     return "enc_record " + " ".join(case["args"]) + " " + " ".join("%s=%s" % kv for kv in sorted(case.get("sets", {}).items()))
 
 
+_calls = 0
+
+
 def run_cases(cases, want_dec=None, timeout=150, variant="hooks", keep=False):
     """cases: list of dict(args=[...], sets={...}, n=frames, w=, h=, bits=, expect={...}).
     want_dec: None or list of dec_record args (e.g. ['--aom'] or ['--aom','--svt'])."""
     tdir = vlib.tmpdir()
+    global _calls
+    _calls += 1
+    call = _calls            # several calls in one process must not share file names
 
     def one(j):
         i, c = j
-        out = os.path.join(tdir, "case_%d_%d" % (os.getpid(), i))
+        out = os.path.join(tdir, "case_%d_%d_%d" % (os.getpid(), call, i))
         if c.get("twopass"):
             # two-pass encode: a first session collects the statistics (rc_firstpass_stats_out), a second one consumes them
             st = out + ".stats"
